@@ -905,7 +905,8 @@ pub fn c05(args: &Args) -> Acc {
                 }
             }
         }
-        let nsamp = if args.quick() { 600 } else { 20_000 };
+        // thorough: every value of the colour type for every (built-in model, transport) pair
+        let nsamp = if args.quick() { 600 } else { 1usize << 18 };
         let acc = par_cases(list.len() as u64, args.threads, args.case, |idx, a| {
             let (model, tr) = list[idx as usize];
             let mut rng = Rng::for_case(args.seed, "C05/models", &args.tier, idx);
@@ -932,8 +933,10 @@ pub fn c05(args: &Args) -> Acc {
             }
             let mask = (1u32 << bits) - 1;
             let specials = [0u32, mask, 1, 1 << (bits - 1), 0x1F, 0x7E0, 0xF800, 0x3F, 0xFC0, 0x3F000, 0x00FF, 0xFF00, 0x8001];
+            let exhaustive = nsamp >= (1usize << bits);
+            let nsamp = if exhaustive { 1usize << bits } else { nsamp };
             for k in 0..nsamp {
-                let v = if k < specials.len() { specials[k] & mask } else { rng.next() as u32 & mask };
+                let v = if exhaustive { k as u32 } else if k < specials.len() { specials[k] & mask } else { rng.next() as u32 & mask };
                 let x = (k % 16) as u16;
                 let y = ((k / 16) % 16) as u16;
                 let op = if k % 2 == 0 {
